@@ -30,8 +30,11 @@ Deviate(how, subs) == St("deviate", <<how>>, subs)
 \* classes of input that known findings refer to
 RECURSIVE AugWhenUses(_)
 AugWhenUses(st) == (st.kw = "augment" /\ Has(st, "when") /\ Has(st, "uses")) \/ \E i \in 1..Len(st.subs) : AugWhenUses(st.subs[i])
+RECURSIVE DeepHas(_, _)
+DeepHas(st, kw) == st.kw = kw \/ \E i \in 1..Len(st.subs) : DeepHas(st.subs[i], kw)
 InputClasses(M) == {"feature-in-submodule" : i \in {j \in 1..Len(M) : M[j].kw = "submodule" /\ Has(M[j], "feature")}}
               \cup {"uses-in-augment-with-when" : i \in {j \in 1..Len(M) : AugWhenUses(M[j])}}
+              \cup {"scoped-grouping-in-submodule" : i \in {j \in 1..Len(M) : M[j].kw = "submodule" /\ \E k \in 1..Len(M[j].subs) : M[j].subs[k].kw # "grouping" /\ DeepHas(M[j].subs[k], "grouping")}}
 
 CaseOf(m, e, alt) == [m |-> m, e |-> e, alt |-> alt, fl |-> <<>>]
 
@@ -458,9 +461,70 @@ H6(u_) == { [m |-> m, e |-> {}, alt |-> "none", fl |-> Filters(0)] : m \in
        <<OpdExt, OpdMod("m1", <<>>, <<Leaf("s1", <<P("config", "false")>>), OpdCmd("show"), Leaf("c1", <<>>)>>)>>,
        <<OpdExt, OpdMod("m1", <<>>, <<OpdCmd("show"), Leaf("s1", <<P("config", "false")>>), Leaf("c1", <<>>)>>)>> } }
 
+\* ---------------------------------------------------------------- round 4
+\* F11: grouping bodies of every size (no data node at all, one, several) used at every position among siblings that
+\* themselves contain uses / refine / augment
+Perms4(a, b, c, d) == UNION { { <<x>> \o p : p \in Perms3(y[1], y[2], y[3]) }
+                             : x \in {a, b, c, d}, y \in { <<b, c, d>>, <<a, c, d>>, <<a, b, d>>, <<a, b, c>> } }
+F11Bodies == { <<>>, <<P("description", "placeholder"), P("reference", "none")>>, <<Leaf("e1", <<>>)>>, <<Leaf("e1", <<>>), Cont("e2", <<Leaf("e3", <<>>)>>)>> }
+F11A == Cont("a", <<Uses("", "g", <<Refine(<<"", "x">>, <<P("default", "rx")>>)>>), Cont("deep", <<Uses("", "h", <<>>)>>)>>)
+F11B == Leaf("z", <<>>)
+F11C == Cont("b", <<Uses("", "h", <<Augment(<<"", "hc">>, <<Leaf("n", <<>>)>>)>>), Uses("", "e", <<>>)>>)
+F11Mod(eb, kids) == Module("a", <<>>, <<Grouping("e", eb), Grouping("g", <<Leaf("x", <<>>)>>), Grouping("h", <<Leaf("y", <<>>), Cont("hc", <<>>)>>)>> \o kids)
+F11(u_) == UNION { { CaseOf(<<F11Mod(eb, <<Cont("top", p)>>)>>, {}, "inline") : p \in {q \in Perms4(Uses("", "e", <<>>), F11A, F11B, F11C) : Len(q) = 4 /\ Cardinality(Range(q)) = 4} }
+              \cup { CaseOf(<<F11Mod(eb, <<Uses("", "e", <<>>), F11A, F11B, F11C>>)>>, {}, "inline"),
+                     CaseOf(<<F11Mod(eb, <<List("li", "k", <<Uses("", "e", <<>>), Uses("", "e", <<>>), F11A, F11B, F11C>>)>>)>>, {}, "inline"),
+                     CaseOf(<<F11Mod(eb, <<Cont("top", <<Choice("ch", <<Case("c1", <<Uses("", "e", <<>>), F11A, F11B>>), Case("c2", <<F11C>>)>>)>>)>>)>>, {}, "inline") }
+                   : eb \in F11Bodies }
+
+\* F12: twins inside ONE module: the same grouping name defined in sibling scopes (depth >= 2), each used in its own
+\* scope; lookups follow the lexical scope
+Scope(n, gname, body, use) == Cont(n, <<Cont("client", <<Grouping(gname, body)>> \o use)>>)
+F12(u_) == { CaseOf(m, {}, "inline") : m \in {
+   << Module("a", <<>>, <<Cont("services", <<Scope("dns", "params", <<Leaf("server", <<>>)>>, <<Uses("", "params", <<>>)>>),
+                                             Scope("ntp", "params", <<Leaf("peer", <<P("default", "p")>>), Leaf("stratum", <<>>)>>, <<Uses("", "params", <<>>)>>)>>)>>) >>,
+   << Module("a", <<>>, <<Cont("services", <<Scope("ntp", "params", <<Leaf("peer", <<>>)>>, <<Cont("inner", <<Uses("", "params", <<Refine(<<"", "peer">>, <<P("default", "r")>>)>>)>>)>>),
+                                             Scope("dns", "params", <<Cont("server", <<Leaf("addr", <<>>)>>)>>, <<Uses("a", "params", <<>>)>>),
+                                             Scope("log", "params", <<LeafList("sink", <<>>)>>, <<List("l", "k", <<Uses("", "params", <<>>)>>)>>)>>)>>) >>,
+   << Module("a", <<>>, <<Grouping("outer1", <<Cont("w1", <<Grouping("params", <<Leaf("p1", <<>>)>>), Cont("o1", <<Uses("", "params", <<>>)>>)>>)>>),
+                          Grouping("outer2", <<Cont("w2", <<Grouping("params", <<Leaf("p2", <<>>)>>), Cont("o2", <<Uses("", "params", <<>>)>>)>>)>>),
+                          Cont("top", <<Uses("", "outer1", <<>>), Uses("", "outer2", <<>>)>>)>>) >>,
+   << Module("a", <<>>, <<Cont("x", <<Cont("x1", <<Grouping("params", <<Leaf("a1", <<>>)>>), Grouping("more", <<Uses("", "params", <<>>), Leaf("m1", <<>>)>>), Uses("", "more", <<>>)>>)>>),
+                          Cont("y", <<Cont("y1", <<Grouping("params", <<Leaf("b1", <<>>)>>), Grouping("more", <<Cont("mc", <<Uses("", "params", <<>>)>>)>>), Uses("", "more", <<>>)>>)>>)>>) >>,
+   << Submodule("as", "a", <<>>, <<Cont("sx", <<Cont("s1", <<Grouping("params", <<Leaf("s1l", <<>>)>>), Uses("", "params", <<>>)>>)>>)>>),
+      Module("a", <<>>, <<Include("as"), Cont("ax", <<Cont("a1", <<Grouping("params", <<Leaf("a1l", <<>>)>>), Uses("", "params", <<>>)>>)>>)>>) >> } }
+
+\* G5: if-feature / status / when / config through every nesting uses -> augment -> uses (-> augment -> uses)
+G5H(x) == Grouping("h", <<Leaf("hh", x), Cont("hc", <<Leaf("hl", <<>>)>>)>>)
+G5X(u_) == { x \in SUBSET {IfF("", "f"), P("status", "deprecated"), P("status", "obsolete"), P("when", "1 = 1")} :
+             ~({P("status", "deprecated"), P("status", "obsolete")} \subseteq x) }
+G5Sets(x, hx) == {
+   << Module("a", <<>>, <<Feature("f", <<>>), Feature("f2", <<>>), G5H(hx), Grouping("g", <<Cont("c", <<Leaf("x", <<>>)>>)>>),
+                          Cont("top", <<Uses("", "g", <<Augment(<<"", "c">>, x \o <<Uses("", "h", <<>>), Leaf("n", <<>>)>>)>>)>>)>>) >>,
+   << Module("a", <<>>, <<Feature("f", <<>>), Feature("f2", <<>>), G5H(hx), Grouping("g", <<Cont("c", <<Leaf("x", <<>>)>>)>>),
+                          Cont("top", <<Cont("in", <<>>)>>),
+                          Augment(<<"", "top", "", "in">>, <<Uses("", "g", <<Augment(<<"", "c">>, x \o <<Uses("", "h", <<IfF("", "f2")>>)>>)>>)>>)>>) >>,
+   << Module("b", <<>>, <<Feature("f", <<>>), Feature("f2", <<>>), G5H(hx), Grouping("g", <<Cont("c", <<Leaf("x", <<>>)>>)>>)>>),
+      Module("a", <<"b">>, <<Feature("f", <<>>), Feature("f2", <<>>),
+                            Cont("top", <<Uses("b", "g", <<Augment(<<"", "c">>, x \o <<Uses("b", "h", <<Augment(<<"", "hc">>, <<Leaf("deep", <<P("config", "false")>>)>>)>>)>>)>>)>>)>>) >> }
+G5(u_) == UNION { { CaseOf(m, e, "inline") : m \in G5Sets(SetAsSeq(x), hx) }
+                  : x \in G5X(0), hx \in {<<>>, <<IfF("", "f2")>>}, e \in FeatSets({<<"a", "f">>, <<"a", "f2">>}) \cup {{<<"a", "f">>, <<"b", "f2">>}} }
+
+\* G6: the same-module status rule for a node that reaches the schema only through a uses (or augment) of another module
+G6(u_) == UNION { {
+     CaseOf(<<Module("lib", <<>>, <<Feature("old", sf), Grouping("g", <<Leaf("m", sm \o <<IfF("", "old")>>), Leaf("plain", <<>>)>>)>>),
+              Module("a", <<"lib">>, <<Cont("top", sc \o <<Uses("lib", "g", <<>>)>>)>>)>>, {<<"lib", "old">>}, "inline"),
+     CaseOf(<<Module("lib", <<>>, <<Feature("old", sf), Grouping("g", <<Cont("gc", sm \o <<Leaf("m", <<IfF("lib", "old")>>)>>)>>), Cont("libtop", <<Leaf("l", <<>>)>>)>>),
+              Module("a", <<"lib">>, <<Augment(<<"lib", "libtop">>, sc \o <<Uses("lib", "g", <<>>)>>)>>)>>, {<<"lib", "old">>}, "inline"),
+     CaseOf(<<Module("lib", <<>>, <<Feature("old", sf), Grouping("g", <<Leaf("m", sm \o <<IfF("", "old")>>)>>), Cont("own", <<Uses("", "g", <<>>)>>)>>),
+              Module("a", <<"lib">>, <<Cont("top", sc \o <<Uses("lib", "g", <<>>)>>)>>)>>, {<<"lib", "old">>}, "inline"),
+     CaseOf(<<Module("lib", <<>>, <<Grouping("g2", sf \o <<Leaf("y", <<>>)>>), Grouping("g", <<Cont("gc", sm \o <<Uses("", "g2", <<>>)>>)>>)>>),
+              Module("a", <<"lib">>, <<Cont("top", sc \o <<Uses("lib", "g", <<>>)>>)>>)>>, {}, "inline") }
+   : sf \in Stats, sm \in St3, sc \in St3 }
+
 Family(name) == CASE name = "F1" -> F1(Bodies(0)) [] name = "F1q" -> F1(BodiesA(0)) [] name = "F2" -> F2(0) [] name = "F3" -> F3(0) [] name = "F4" -> F4(0) [] name = "F5" -> F5(0) [] name = "F6" -> F6(F6Extras(0)) [] name = "F6q" -> F6({<<>>, <<P("when", "1 = 1")>>}) [] name = "F7" -> F7(0) [] name = "F8" -> F8(0)
                   [] name = "G1c" -> G1K("container") [] name = "G1l" -> G1K("list") [] name = "G1h" -> G1K("choice")
                   [] name = "G2a" -> G2D(1) [] name = "G2b" -> G2D(2) [] name = "G2c" -> G2D(3) [] name = "G2d" -> G2D(4) [] name = "G2e" -> G2D(5)
                   [] name = "G2X" -> G2X(0) [] name = "G2S" -> G2S(0) [] name = "G3" -> G3(0) [] name = "G4" -> G4(0) [] name = "G4X" -> G4X(0)
-                  [] name = "H1q" -> H1(7) [] name = "H1" -> H1(11) [] name = "H2" -> H2(0) [] name = "H3" -> H3(0) [] name = "H4" -> H4(0) [] name = "F9" -> F9(0) [] name = "F10" -> F10(0) [] name = "G2T" -> G2T(0) [] name = "H5" -> H5(0) [] name = "H6" -> H6(0)
+                  [] name = "H1q" -> H1(7) [] name = "H1" -> H1(11) [] name = "H2" -> H2(0) [] name = "H3" -> H3(0) [] name = "H4" -> H4(0) [] name = "F9" -> F9(0) [] name = "F10" -> F10(0) [] name = "F11" -> F11(0) [] name = "F12" -> F12(0) [] name = "G5" -> G5(0) [] name = "G6" -> G6(0) [] name = "G2T" -> G2T(0) [] name = "H5" -> H5(0) [] name = "H6" -> H6(0)
 =============================================================================
